@@ -74,6 +74,9 @@ var agreeSnippets = []string{
 	`try { let o = "{\"k\": {\"x\": 1}}".parse_json() as { k: { x: int, y: int } }; println(o); } catch e { println(e.message); }`,
 	`try { let o = "[{\"k\": [null, {\"d\": \"s\"}]}]".parse_json() as [{ k: [?{ d: int }] }]; println(o); } catch e { println(e.message); }`,
 	`let o = "[1, 2.0, true, 0, 1.5]".parse_json() as [bool]; println(o); let f = "[1, true, 2.5]".parse_json() as [float]; println(f); let i = "[true, 2.0, 3]".parse_json() as [int]; println(i);`,
+	`let l: [any] = "[1, 2]".parse_json(); let x: any = l; let back: [int] = x; println(back);`,
+	`let o: { ? } = "{\"a\": [1]}".parse_json(); let x: any = o; let back: { a: [int] } = x; println(back.a);`,
+	`let l: [any] = "[1, \"s\"]".parse_json(); let x: any = l; try { let back: [int] = x; println(back); } catch e { println(e.message); }`,
 	// any-objects
 	`let o = new { ? }; o.set("s", "x"); o.set("i", 1); o.set("f", 1.5); o.set("b", true); o.set("l", [1]); o.set("n", none); o.set("o", new { a: 1 }); o.set("r", 0..2); println(o.get_type("s"), o.get_type("i"), o.get_type("f"), o.get_type("b"), o.get_type("l"), o.get_type("n"), o.get_type("o"), o.get_type("r"));`,
 	`let o = new { ? }; try { println(o.get_type("missing")); } catch e { println("caught", e.message); }`,
@@ -97,6 +100,11 @@ var agreeSnippets = []string{
 	`let l = [1, 2]; let f = fn(x: [int]) -> int { x.push(3); x.len() }; println(f(l), l);`,
 	`let l = [3, 1, 2]; let m = l; m.sort(); println(l);`,
 	`let x = 1; let f = fn(y: int) -> int { y + 1 }; println(f(x), x);`,
+	// many caught exceptions, then ordinary calls (both backends run with the same call-depth limit)
+	`let i = 0; let c = 0; while i < 1500 { i += 1; try { c += "x".parse_int(); } catch e { c += 1; } } println(i, c, [1].len());`,
+	`let i = 0; let c = 0; let o: ?int = none; while i < 1500 { i += 1; try { c += o.unwrap(); } catch e { c += 1; } } println(i, c, "ab".len());`,
+	`let i = 0; let c = 0; while i < 1500 { i += 1; try { throw("t"); } catch e { c += 1; } } println(i, c, (1).to_string());`,
+	`let i = 0; let c = 0; while i < 1500 { i += 1; try { c += "{bad".parse_json() as int; } catch e { c += 1; } } println(i, c, [1].len());`,
 	// strings and unicode
 	`println("héllo".len(), "héllo"[1], "héllo"[0], "日本語".len(), "日本語"[1]);`,
 	`try { println("héllo"[5]); } catch e { println("caught"); }`,
